@@ -43,6 +43,17 @@ CHECKS = {
         design_ref="5/C19", technique="Coq proof (per-operation simulation between a re-based view and its normalised twin, "
                                       "induction over operation sequences) + differential on re-based programs + library-vs-"
                                       "library twin monitor"),
+    "C05": dict(
+        text="Theorems C05_assign_exact, C05_moved_exact, C05_fill, C05_swap, C05_assign_values (Coq, any views, any sizes): the "
+             "sequential element loops the library runs for =, elements()=, fill, swap, =element_moved() and range assignment set "
+             "exactly the k-th destination element to the (converted) k-th source value for every canonical position k, mark "
+             "exactly the source view's cells as moved-from, exchange both footprints, and leave every address outside the "
+             "destination (and, for swap/move, the source) unchanged, given that distinct positions are distinct cells and the two "
+             "views share none; C05_logical_order: position k is the same index tuple relative to each side's index bases. "
+             "Tie: whole-buffer comparison (guards + both roots, value and moved-from flag per cell) of the library against the "
+             "extracted model on generated (destination view, source view, operation) cases, plus model-independent monitors.",
+        design_ref="5/C05", technique="Coq proof (loop invariants by induction on the element count; frame) + extracted-model vs "
+                                      "library whole-buffer differential"),
 }
 
 NOT_YET = {
